@@ -113,4 +113,8 @@ func (Precompile).Transfer
     // the EVM balance mirror of the calling contract is debited exactly when it is the sender and the token is the EVM denomination
     ensures mirror: result.1 == nil ==> sdb_delta == ite(caller == sender && M.Token.Denom == bond_denom(oldheap(*p.stakingKeeper.Keeper), ctx),
             upd(old(sdb_delta), caller, old(sdb_delta)[caller] - M.Token.Amount), old(sdb_delta))
+    // ---- C02: the Cosmos-side debit of the sender (signer or calling contract, both cached) is mirrored whenever the token is the
+    // EVM denomination. FINDING F5: no mirror when the signer's funds are sent through a calling contract
+    ensures c02_mirrored: result.1 == nil ==> sdb_delta == ite(M.Token.Denom == bond_denom(oldheap(*p.stakingKeeper.Keeper), ctx),
+            upd(old(sdb_delta), sender, old(sdb_delta)[sender] - M.Token.Amount), old(sdb_delta))
 @*/
